@@ -81,10 +81,24 @@ def groupJudgeC19 (cases : Array Case) (obs : Array ObsLine) : Array Json := Id.
               | none =>
                 -- core text contains every value of the nested statements
                 let coreText := " ".intercalate (refsC.map (·.2))
-                let vals := nestx.flatMap fun r => r.filterMap fun (k, v) =>
-                  if k = "Statement ID" || linkCols.contains k || sEnds k "-Ref" || k = "Statement Annotation" || sEnds k "(Annotation)" then none else some v
-                -- a cell may hold several values joined by commas (private and shared properties)
-                let vals := vals.flatMap fun v => (v.splitOn ",").map sTrim |>.filter (· ≠ "")
+                -- the values: leaf texts (and private values) of the nested statements in the
+                -- implementation's own parse; without a parse, the cells of the nested rows
+                let fromParse : Option (List String) :=
+                  match (ox.obs.getObjVal? "parse").toOption.bind (fun pj => (pj.getObjVal? "nodes").toOption) with
+                  | some (.arr #[n]) =>
+                    (match nodeOfJson n with
+                     | .ok pn =>
+                       let tops := Tab.topStmts pn []
+                       some (tops.flatMap fun (fs, _) => fs.flatMap fun (i, node) =>
+                         if Tab.isComplexField i then leafTextsOf node ++ privTextsOf node else [])
+                     | .error _ => none)
+                  | _ => none
+                let vals := match fromParse with
+                  | some vs => vs.map (fun (v : String) => String.ofList (Tab.adjust false v.toList))
+                  | none =>
+                    (nestx.flatMap fun (r : ORow) => r.filterMap fun ((k, v) : String × String) =>
+                      if k = "Statement ID" || linkCols.contains k || sEnds k "-Ref" || k = "Statement Annotation" || sEnds k "(Annotation)" then none else some v).flatMap
+                      fun (v : String) => (v.splitOn ",").map sTrim |>.filter (· ≠ "")
                 match vals.find? (fun v => (coreText.splitOn (sTrim v)).length < 2) with
                 | some v => some s!"value '{v}' of a nested statement is missing from the IG Core cell text '{coreText}'"
                 | none => none
